@@ -59,6 +59,16 @@ def det_template(rng):
                  "{%% endmacro %%}" % (ns[8] + "m", ns[0], ns[1], ns[2], ns[9], ns[10]))
     parts.append("{%% block %s %%}{{ %s }}{{ %s }}{{ %s }}{%% endblock %%}" % (ns[3] + "b", ns[4], ns[5], ns[10]))
     parts.append("{%% set %s %%}{{ %s }}{{ %s }}{%% endset %%}" % (ns[11] + "s", ns[0], ns[6]))
+    tv = rng.sample(NAMES, 4)
+    parts.append("{%% trans %%}x {{ %s }} y {{ %s }} z {{ %s }} {{ %s }}{%% endtrans %%}" % tuple(tv))
+    parts.append("{%% trans n=%s %%}one {{ %s }} {{ %s }}{%% pluralize %%}many {{ %s }} {{ %s }} {{ n }}{%% endtrans %%}"
+                 % (tv[0], tv[1], tv[2], tv[2], tv[3]))
+    nsn = rng.sample(NAMES, 4)
+    parts.append("{%% set %s = namespace() %%}{%% set %s = namespace() %%}{%% set %s = namespace() %%}"
+                 "{%% set %s.x, %s.y, %s.z, %s = 1, 2, 3, 4 %%}" % (nsn[0], nsn[1], nsn[2], nsn[0], nsn[1], nsn[2], nsn[3]))
+    br = rng.sample(NAMES, 5)
+    parts.append("{%% if %s %%}{%% set %s = 1 %%}{%% set %s = 1 %%}{%% set %s = 1 %%}{%% set %s = 1 %%}{%% endif %%}"
+                 "{{ %s }}{{ %s }}{{ %s }}{{ %s }}" % (br[0], br[1], br[2], br[3], br[4], br[1], br[2], br[3], br[4]))
     rng.shuffle(parts)
     return "".join(parts)
 
@@ -77,7 +87,7 @@ def digests_for(sources):
     for cname, kw in configs():
         kw = dict(kw)
         cls = SandboxedEnvironment if kw.pop("sandbox", False) else jinja2.Environment
-        env = cls(extensions=corpus.EXTENSIONS, **kw)
+        env = cls(extensions=corpus.EXTENSIONS + ["jinja2.ext.i18n", "jinja2.ext.do"], **kw)
         for src in sources:
             try:
                 code = env.compile(src, name="t", filename="t.html", raw=True)
